@@ -260,27 +260,29 @@ theorem A_self {n m : Nat} {l : L} (h : A n m l) : A n l.endOffset l := ⟨h.siz
 /-- a state function that returns to `rootState` without moving backwards -/
 theorem back_to_root {n : Nat} {st : St} {l l' : L} (hst : st ≠ .root) (h : A n l.endOffset l)
     (h' : A n l.endOffset l') :
-    OkErr l' ∧ ∀ st', (some St.root, l').1 = some st' → Inv st' l' ∧ mu st' l' < mu st l := by
+    OkErr l' ∧ ∀ st', (some St.root, l').1 = some st' →
+      Inv st' l' ∧ mu st' l' < mu st l ∧ l'.input.size = l.input.size := by
   refine ⟨h'.ok, fun st' he => ?_⟩
   have : st' = .root := by simpa using he.symm
   subst this
-  refine ⟨⟨by rw [h'.size]; exact A_mono h' (Nat.zero_le _), fun hne => absurd rfl hne⟩, ?_⟩
+  refine ⟨⟨by rw [h'.size]; exact A_mono h' (Nat.zero_le _), fun hne => absurd rfl hne⟩, ?_, by rw [h'.size, h.size]⟩
   simp only [mu, h.size, h'.size, hst, if_true, if_false]
   have := h'.lo; have := h'.hi; have := h.hi
   omega
 
 theorem post_progress {n : Nat} {st : St} {l : L} {r : Option St × L} (h : A n l.endOffset l)
     (hp : Post n (l.endOffset + 1) r) :
-    OkErr r.2 ∧ ∀ st', r.1 = some st' → Inv st' r.2 ∧ mu st' r.2 < mu st l := by
+    OkErr r.2 ∧ ∀ st', r.1 = some st' → Inv st' r.2 ∧ mu st' r.2 < mu st l ∧ r.2.input.size = l.input.size := by
   refine ⟨hp.1, fun st' he => ?_⟩
   have ha := hp.2 (by rw [he]; rfl)
-  refine ⟨⟨by rw [ha.size]; exact A_mono ha (Nat.zero_le _), fun _ => by have := ha.lo; omega⟩, ?_⟩
+  refine ⟨⟨by rw [ha.size]; exact A_mono ha (Nat.zero_le _), fun _ => by have := ha.lo; omega⟩, ?_, by rw [ha.size, h.size]⟩
   simp only [mu, h.size, ha.size]
   have := ha.lo; have := ha.hi; have := h.hi
   split <;> split <;> omega
 
 theorem step_post (st : St) (l : L) (h : Inv st l) :
-    OkErr (step st l).2 ∧ ∀ st', (step st l).1 = some st' → Inv st' (step st l).2 ∧ mu st' (step st l).2 < mu st l := by
+    OkErr (step st l).2 ∧ ∀ st', (step st l).1 = some st' →
+      Inv st' (step st l).2 ∧ mu st' (step st l).2 < mu st l ∧ (step st l).2.input.size = l.input.size := by
   obtain ⟨h0, h1⟩ := h
   have hs := A_self h0
   cases st with
@@ -316,7 +318,7 @@ theorem run_total : ∀ (fuel : Nat) (st : St) (l : L), Inv st l → mu st l ≤
     · cases hr : (step st l).1 with
       | none => exact ⟨by simp, hok⟩
       | some st' =>
-        obtain ⟨hi', hm'⟩ := hnext st' hr
+        obtain ⟨hi', hm', _⟩ := hnext st' hr
         exact ih st' _ hi' (by omega)
 
 theorem inv_init (inp : Bytes) (limit : Nat) : Inv .root (L.init inp limit) :=
